@@ -284,8 +284,13 @@ def layer_prefix_rebinding(ctx, n):
     for case in range(n):
         sibs = []
         for _ in range(rng.randint(2, 5)):
-            k = rng.choice(['F', 'S', 'P', 'N'])
+            k = rng.choice(['F', 'S', 'P', 'N', 'O'])
             stmt = rng.choice([('condition', 'c'), ('content', 'x'), ('omit-tag', ''), ('attributes', 'k x'), ('define', 'q 1')])
+            if k == 'O':
+                # the re-binding element contains elements left open (tag soup: <br>, <img ...> without end tag) that its own
+                # end tag closes: the re-binding still ends there
+                stmt = rng.choice([('condition', 'c'), ('attributes', 'k x'), ('define', 'q 1')])
+                ctx.mon('rebinding-elements-closing-open-children')
             sibs.append((k, stmt))
         ns = rng.choice(['tal', 'tal', 'i18n'])
         if ns == 'i18n':
@@ -303,6 +308,8 @@ def layer_prefix_rebinding(ctx, n):
                     decl = ' xmlns:q="%s"' % NS[ns] if respelt else ''
                     if k == 'S':
                         out += '<br id="s%d"%s %s:%s="%s"/>' % (i, decl, pre, name, val)
+                    elif k == 'O':
+                        out += '<div id="o%d"%s %s:%s="%s">%st</div>' % (i, decl, pre, name, val, ['<br>', '<img src="i.png"><br>', '<p>a<b>', '<input name="n">'][i % 4])
                     else:
                         out += '<u id="p%d"%s %s:%s="%s">old</u>' % (i, decl, pre, name, val)
             return out + '</root>'
@@ -335,14 +342,15 @@ def layer_same_tag_text_under_two_bindings(ctx, n):
         secs = [rng.choice(['foreign', 'template']) for _ in range(rng.randint(2, 4))]
         if len(set(secs)) == 1:
             secs[0] = 'foreign' if secs[0] == 'template' else 'template'
-        src = '<root>'
-        want = '<root>'
+        src = '<root xmlns:t="urn:example:outer">'
+        want = '<root xmlns:t="urn:example:outer">'
         for i, kind in enumerate(secs):
+            soup = rng.choice(['', '', '<br>', '<img src="i.png">', '<hr><br>'])      # elements left open inside the section
             if kind == 'foreign':
-                src += '<a id="s%d" xmlns:t="urn:example:tracking">%s</a>' % (i, tagtext)
-                want += '<a id="s%d" xmlns:t="urn:example:tracking">%s</a>' % (i, tagtext)
+                src += '<a id="s%d" xmlns:t="urn:example:tracking">%s%s</a>' % (i, soup, tagtext)
+                want += '<a id="s%d" xmlns:t="urn:example:tracking">%s%s</a>' % (i, soup, tagtext)
             else:
-                src += '<b id="s%d" xmlns:t="%s">%s</b>' % (i, NS[ns], tagtext)
+                src += '<b id="s%d" xmlns:t="%s">%s%s</b>' % (i, NS[ns], soup, tagtext)
                 plain = tagtext.replace(' t:%s="%s"' % (stmt, val), '')
                 if stmt == 'content':
                     plain = plain.replace('old', 'X')
@@ -350,9 +358,10 @@ def layer_same_tag_text_under_two_bindings(ctx, n):
                     plain = 'R'
                 elif stmt == 'omit-tag':
                     plain = 'old'
-                want += '<b id="s%d">%s</b>' % (i, plain)
-        src += '</root>'
-        want += '</root>'
+                want += '<b id="s%d">%s%s</b>' % (i, soup, plain)
+        # after the sections the outer binding is in force again
+        src += tagtext + '</root>'
+        want += tagtext + '</root>'
         got = render(src)
         ctx.mon('same-tag-two-bindings-compared')
         ctx.case(key=('two-bindings', ns, stmt, tuple(secs), '\n' in tag), nontrivial=True)
